@@ -863,7 +863,7 @@ fn build_items(ctx: &Ctx, tier: &str, seed: u64) -> (Vec<Item>, Value) {
         }
     }
     // seeded combinations (short+hard, interrupted+hard, at_byte elsewhere)
-    let seeded = if thorough { 2_000_000 } else { 20_000 };
+    let seeded = if thorough { 1_000_000 } else { 20_000 };
     let mut weighted = Vec::new();
     for &d in &order {
         for _ in 0..(if ctx.dims[d].0 <= 6_000 { 4 } else { 1 }) {
